@@ -39,7 +39,14 @@ func exercise(name string, t sched.Timer, seed uint64) (failures []string) {
 			case r := <-t.Chan():
 				atomic.AddInt64(&r.(*job).delivered, 1)
 			case <-stopDrain:
-				return
+				for { // what is still buffered was decided before
+					select {
+					case r := <-t.Chan():
+						atomic.AddInt64(&r.(*job).delivered, 1)
+					default:
+						return
+					}
+				}
 			}
 		}
 	}()
@@ -78,25 +85,42 @@ func exercise(name string, t sched.Timer, seed uint64) (failures []string) {
 			}
 		}(g)
 	}
-	// a periodic timer cancelled in the middle
+	// a periodic timer cancelled in the middle (no fixed sleeps: poll, so that a loaded
+	// machine cannot turn slowness into a failure)
+	waitFor := func(limit time.Duration, cond func() bool) bool {
+		end := time.Now().Add(limit)
+		for time.Now().Before(end) {
+			if cond() {
+				return true
+			}
+			time.Sleep(2 * time.Millisecond)
+		}
+		return cond()
+	}
 	pj := &job{}
 	pid := t.RunEvery(2, pj)
-	time.Sleep(30 * time.Millisecond)
+	if !waitFor(20*time.Second, func() bool { return atomic.LoadInt64(&pj.delivered) >= 3 }) {
+		failures = append(failures, name+": periodic timer did not fire 3 times within 20 s")
+	}
 	if !t.Cancel(pid) {
 		failures = append(failures, name+": Cancel of a running periodic timer returned false")
 	}
-	time.Sleep(20 * time.Millisecond) // deliveries decided before the cancel are drained by now
-	after := atomic.LoadInt64(&pj.delivered)
+	// a delivery decided before the cancel may still be in flight: wait until the count is stable
+	var after int64
+	waitFor(20*time.Second, func() bool {
+		a := atomic.LoadInt64(&pj.delivered)
+		time.Sleep(40 * time.Millisecond)
+		after = atomic.LoadInt64(&pj.delivered)
+		return a == after
+	})
 	wg.Wait()
-	time.Sleep(150 * time.Millisecond) // every remaining one-shot timer (delay <= 11 units) is due
+	// every remaining one-shot timer (delay <= 11 units) becomes due and leaves the map
+	if !waitFor(30*time.Second, func() bool { return t.Size() == 0 }) {
+		failures = append(failures, fmt.Sprintf("%s: Size() = %d, not 0, 30 s after the last start", name, t.Size()))
+	}
+	time.Sleep(50 * time.Millisecond) // let the drainer take what was decided last
 	if n := atomic.LoadInt64(&pj.delivered); n != after {
 		failures = append(failures, fmt.Sprintf("%s: periodic timer delivered %d more times after Cancel returned true", name, n-after))
-	}
-	if after == 0 {
-		failures = append(failures, name+": periodic timer never fired")
-	}
-	if n := t.Size(); n != 0 {
-		failures = append(failures, fmt.Sprintf("%s: Size() = %d after everything was delivered or cancelled", name, n))
 	}
 	close(stopDrain)
 	drained.Wait()
